@@ -202,6 +202,7 @@ func runC15(t *testing.T, prop string, seed uint64, tier string, replay *hcommon
 		})
 	})
 	hcommon.Fill(&res, out)
+	res.SchedHash = fmt.Sprintf("%x", simrt.HashString(string(res.Plan))) // distinct = distinct cells
 	if out.Panic != "" {
 		res.Violate(prop, "panic", "%s", out.Panic)
 	}
